@@ -74,7 +74,13 @@ FAULTS = [
     ("undefined-assign", "zz_x := zz_nowhere"), ("undefined-for-bound", ".for zz_i := 0, zz_nowhere {\nnop\n}"),
     # the program counter walks out of the last mapped bank (no *= onto an unmapped bank involved)
     ("run-off-mapped", "*=0x6FFFFC\n.dw 1, 2, 3, 4\nnop"),
+    # an address above the 24-bit address space whose low 24 bits would be a mapped address
+    ("org-above-24-bits", "*=0x1008000\nnop"), ("org-above-24-bits", "*=0x1008000\nnop"), ("org-above-24-bits", "*=0x1008000\nnop"),
 ]
+# constructs cut off by the end of the text (appended to a program, or the end of an included file)
+CUT_OFF = ["{\nnop", ".scope zz_cut {\nnop", ".macro zz_cm() {\nnop", ".if 1 {\nnop", ".if 0 {\nnop\n} else {\nrts", ".for zz_ck := 0, 4 {\nnop",
+           ".macro zz_cm(a) {\n.db a\n}\nzz_cm(1", ".if 1", ".for zz_ck := 0, 4", ".include_ips 'bad.ips'", "lda [0x10", "lda (0x10", "jmp (0x1234,x",
+           ".macro zz_cm(code) {\n{{ code", ".db 1,", "zz_cx =", ".macro zz_cm(", "{\n{\nnop\n}"]
 # faults that are one complete statement: also planted inside every kind of enclosing construct
 WRAPPABLE = ["undefined-macro", "code-lookup", "undefined-assign", "undefined-for-bound", "too-few-arguments",
              "undefined-operand", "unsupported-mode", "missing-incbin", "undefined-org", "struct", "text-without-table"]
@@ -124,6 +130,9 @@ def cases(ctx):
                     rom, ["*=0x7d0000\nnop", "*=0x708000\nnop", "*=0xd08000\nnop", "*=0xef8000\nnop", "*=0xf08000\nnop", "*=0xff8000\nnop",
                           "@=0xd08000\nnop", "@=0xef8000\nnop", "*=0xcffffe\n.dw 1, 2\nnop", "*=0x6ffffe\n.dw 1, 2\nnop"])
                 fault = rng.choice(unmapped)
+            if kind == "org-above-24-bits":
+                fault = rng.choice({"high": ["*=0x1C08000\nnop", "@=0x17E2000\nnop", "*=0x1400000\n.db 1", "zz_hb := 0xF00000\n*=zz_hb + 0x510000\nnop"]}.get(
+                    rom, ["*=0x1008000\nnop", "@=0x17E2000\nnop", "*=0x1818000\n.db 1", "zz_hb := 0xCF8000\n*=zz_hb + 0x320000\nnop"]))
             if kind == "run-off-mapped" and rom == "high":
                 fault = "*=0xFFFFFC\n.dw 1, 2, 3, 4\nnop"
             src = "\n".join(lines[:pos] + [fault] + lines[pos:])
@@ -141,6 +150,26 @@ def cases(ctx):
                 c["cli"] = True
                 cli_budget -= 1
             out.append(c)
+    for rep in range(1 if tier == "quick" else 6):
+        for cut in CUT_OFF:
+            for where in ("main", "included"):
+                for final_newline in (False, True):
+                    rom = rng.choice(["low", "high"])
+                    g = progen.Gen(rng, rom=rom, features={"blocks", "scopes", "macros", "if", "for", "data", "symbols"})
+                    head = progen.render(g.program(rng.randrange(1, 5))) + "\n"
+                    text = cut + ("\n" if final_newline else "")
+                    files = {"bad.ips": FILES["bad.ips"]} if "bad.ips" in cut else {}
+                    if where == "main":
+                        src = head + text
+                    else:
+                        src, files = head + ".include 'inc_cut.s'\nnop\n", {**files, "inc_cut.s": "nop\n" + text}
+                    fmt = rng.choice(["ips", "sfc"])
+                    c = {"kind": f"fault:cut-off@{where}", "rom": rom, "mapping": rom, "src": src, "files": files, "format": fmt, "copier": False,
+                         "api": True, "count_empty": True, "spec": {"t": "c14", "must_fail": True}}
+                    if cli_budget > -12 and rng.random() < 0.2:
+                        c["cli"] = True
+                        cli_budget -= 1
+                    out.append(c)
     for i in range(40 if tier == "quick" else 800):
         rom = rng.choice(["low", "low", "high", "low2"])
         g = progen.Gen(rng, rom=rom)
